@@ -7,13 +7,28 @@ import time
 import z3
 from .types import atom_facts
 
-Z3_TIMEOUT_MS = int(os.environ.get('PYVC_Z3_MS', '10000'))
+Z3_TIMEOUT_MS = int(os.environ.get('PYVC_Z3_MS', '20000'))
 CVC5_TIMEOUT_S = int(os.environ.get('PYVC_CVC5_S', '20'))
 MAX_INST = int(os.environ.get('PYVC_MAX_INST', '20000'))
+QUANT_TIMEOUT_MS = int(os.environ.get('PYVC_QUANT_MS', '30000'))
+QUANT_RLIMIT = int(os.environ.get('PYVC_QUANT_RLIMIT', '0'))
 
 
-def ground_terms(fs, bound_ids=(), want_sets=False):
-    """uninterpreted constants and applications of uninterpreted functions to such, grouped by sort"""
+_sort_key_cache = {}
+
+
+def _sort_key(t):
+    srt = t.sort()
+    i = srt.get_id()
+    k = _sort_key_cache.get(i)
+    if k is None:
+        k = _sort_key_cache[i] = (srt.sexpr(), srt)     # the sort is kept alive so that its id is never reused
+    return k[0]
+
+
+def ground_terms(fs, bound_ids=(), want_sets=False, apps=None):
+    """uninterpreted constants and applications of uninterpreted functions to such, grouped by sort;
+    `apps` (decl id -> applications free of bound variables) is filled on the way when given"""
     by_sort = {}
     seen = set()
     stack = list(fs)
@@ -27,6 +42,9 @@ def ground_terms(fs, bound_ids=(), want_sets=False):
             continue
         ch = t.children()
         stack.extend(ch)
+        if apps is not None and z3.is_app(t) and z3.is_bool(t) and t.decl().kind() == z3.Z3_OP_UNINTERPRETED and t.num_args() > 0 \
+                and not _mentions(t, bound_ids):
+            apps.setdefault(t.decl().get_id(), []).append(t)        # applications of uninterpreted predicates (trigger patterns)
         if z3.is_app(t) and not z3.is_bool(t):
             k = t.decl().kind()
             ok = False
@@ -39,12 +57,14 @@ def ground_terms(fs, bound_ids=(), want_sets=False):
             elif k in (z3.Z3_OP_ARRAY_MAP, z3.Z3_OP_STORE) and want_sets:
                 ok = True       # set-valued terms, for clauses that quantify over sets (choice axioms)
             if ok and not _mentions(t, bound_ids):
-                by_sort.setdefault(t.sort().sexpr(), {})[i] = t
+                by_sort.setdefault(_sort_key(t), {})[i] = t
+                if apps is not None and k == z3.Z3_OP_UNINTERPRETED and t.num_args() > 0:
+                    apps.setdefault(t.decl().get_id(), []).append(t)
                 srt = t.sort()
                 if srt.name().startswith('Opt_') and k != z3.Z3_OP_DT_ACCESSOR:
                     try:
                         w = srt.accessor(1, 0)(t)      # the payload of an optional entry is a natural instantiation candidate
-                        by_sort.setdefault(w.sort().sexpr(), {})[w.get_id()] = w
+                        by_sort.setdefault(_sort_key(w), {})[w.get_id()] = w
                     except Exception:
                         pass
     return by_sort
@@ -86,12 +106,31 @@ def _mentions(t, ids):
     return False
 
 
+_depth_cache = {}
+ACC_FLAT = not os.environ.get('PYVC_ACC_DEEP')
+
+
 def _depth(t):
+    i = t.get_id()
+    d = _depth_cache.get(i)
+    if d is not None:
+        return d[0]
     ch = t.children()
-    return 0 if not ch else 1 + max(_depth(c) for c in ch)
+    if not ch:
+        d = 0
+    elif not z3.is_app(t):
+        d = 1 + max(_depth(c) for c in ch)      # lambda / quantifier
+    elif t.decl().kind() == z3.Z3_OP_DT_ACCESSOR and ACC_FLAT:
+        d = _depth(ch[0])        # a component of a tuple/record is as shallow as the tuple
+    else:
+        d = 1 + max(_depth(c) for c in ch)
+    if len(_depth_cache) < 2000000:
+        _depth_cache[i] = (d, t)      # (the term is kept alive: z3 reuses the ids of collected terms)
+    return d
 
 
-def instantiate(hyps, qhyps, goal, rounds=2, max_depth=2):
+def instantiate(hyps, qhyps, goal, rounds=2, max_depth=2, max_inst=None):
+    max_inst = max_inst or MAX_INST
     out = []
     done = set()
     cur = list(hyps) + [goal]
@@ -99,16 +138,24 @@ def instantiate(hyps, qhyps, goal, rounds=2, max_depth=2):
     for q in qhyps:
         for v in q.vars:
             bound.add(v.get_id())
+    _trace = bool(os.environ.get('PYVC_INST_TRACE'))
+    _cnt, _last = {}, [0]
     for _ in range(rounds):
-        gt = ground_terms(cur + [q.body for q in qhyps], bound, any(z3.is_array(v) for q in qhyps for v in q.vars))
+        _last[0] = 0
+        apps = {}
+        gt = ground_terms(cur + [q.body for q in qhyps], bound, any(z3.is_array(v) for q in qhyps for v in q.vars), apps)
         new = []
         for qi, q in enumerate(qhyps):
             pools = []
+            if _trace:
+                if qi:
+                    _cnt[getattr(qhyps[qi - 1], 'label', '?')] = _cnt.get(getattr(qhyps[qi - 1], 'label', '?'), 0) + len(new) - _last[0]
+                _last[0] = len(new)
             if getattr(q, 'triggers', None):
                 for (decl, idx) in q.triggers:
                     if isinstance(decl, str):
                         v = q.vars[0]
-                        for t in gt.get(v.sort().sexpr(), {}).values():
+                        for t in gt.get(_sort_key(v), {}).values():
                             if _depth(t) <= 1:
                                 key = (qi, t.get_id())
                                 if key not in done:
@@ -116,16 +163,27 @@ def instantiate(hyps, qhyps, goal, rounds=2, max_depth=2):
                                     new.append(z3.substitute(q.body, (v, t)))
                         continue
                     idxs = idx if isinstance(idx, (tuple, list)) else (idx,)
-                    for t in _apps_of(cur + [qq.body for qq in qhyps], decl, bound):
-                        combo = tuple(t.arg(i) for i in idxs)
-                        key = (qi,) + tuple(a.get_id() for a in combo)
-                        if key in done:
-                            continue
-                        done.add(key)
-                        new.append(z3.substitute(q.body, *zip(q.vars, combo)))
+                    rest = q.vars[len(idxs):]
+                    # a pattern that binds only the first variables: the others range over the shallow terms of their sort
+                    rest_pools = [[t for t in gt.get(_sort_key(v), {}).values() if _depth(t) <= max_depth] for v in rest]
+                    if rest_pools:
+                        n = 1
+                        for rp in rest_pools:
+                            n *= max(len(rp), 1)
+                        if n > 40:
+                            rest_pools = [[t for t in rp if _depth(t) <= 1] for rp in rest_pools]
+                    for t in (apps.get(decl.get_id(), []) if decl.kind() == z3.Z3_OP_UNINTERPRETED else _apps_of(cur + [qq.body for qq in qhyps], decl, bound)):
+                        head = tuple((t if i < 0 else t.arg(i)) for i in idxs)      # -1: the application itself
+                        for tail in itertools.product(*rest_pools):
+                            combo = head + tuple(tail)
+                            key = (qi,) + tuple(a.get_id() for a in combo)
+                            if key in done:
+                                continue
+                            done.add(key)
+                            new.append(z3.substitute(q.body, *zip(q.vars, combo)))
                 continue
             for v in q.vars:
-                pool = [t for t in gt.get(v.sort().sexpr(), {}).values()
+                pool = [t for t in gt.get(_sort_key(v), {}).values()
                         if _depth(t) <= (max_depth + 1 if t.decl().kind() == z3.Z3_OP_DT_CONSTRUCTOR else max_depth)]
                 pools.append(pool)
             def _size(ps):
@@ -134,10 +192,10 @@ def instantiate(hyps, qhyps, goal, rounds=2, max_depth=2):
                     n *= max(len(p), 1)
                 return n
             # the more variables a clause has, the shallower the terms it is instantiated with
-            budget = MAX_INST if len(q.vars) <= 2 else 6000
+            budget = getattr(q, 'budget', None) or (max_inst if len(q.vars) <= 2 else min(6000, max_inst))
             if _size(pools) > budget:
                 pools = [[t for t in p if _depth(t) <= 1] for p in pools]
-            if _size(pools) > budget and len(q.vars) >= 3:
+            if _size(pools) > budget and (len(q.vars) >= 3 or max_inst != MAX_INST):
                 pools = [[t for t in p if _depth(t) == 0] for p in pools]
             cnt = 0
             for combo in itertools.product(*pools):
@@ -147,16 +205,19 @@ def instantiate(hyps, qhyps, goal, rounds=2, max_depth=2):
                 done.add(key)
                 ck = (q.body.get_id(),) + key[1:]
                 inst = _inst_cache.get(ck)
+                inst = inst[0] if inst is not None else None
                 if inst is None:
                     inst = z3.substitute(q.body, *zip(q.vars, combo))
                     if len(_inst_cache) < 400000:
-                        _inst_cache[ck] = inst
+                        _inst_cache[ck] = (inst, q.body, combo)      # keys are ids: keep their owners alive
                 new.append(inst)
                 cnt += 1
-                if cnt > MAX_INST:
+                if cnt > max_inst:
                     break
         if not new:
             break
+        if os.environ.get('PYVC_INST_TRACE'):
+            print('INST round', _, 'new', len(new), 'by label', sorted(_cnt.items(), key=lambda kv: -kv[1])[:8], 'pools', {k[:40]: len(v) for k, v in gt.items()}, flush=True)
         out.extend(new)
         cur = cur + new
     return out
@@ -182,7 +243,7 @@ _hq_cache = {}
 def _has_quant(f):
     fid = f.get_id()
     if fid in _hq_cache:
-        return _hq_cache[fid]
+        return _hq_cache[fid][0]
     stack = [f]
     seen = set()
     res = False
@@ -192,7 +253,7 @@ def _has_quant(f):
         if i in seen:
             continue
         seen.add(i)
-        if _hq_cache.get(i) is False:
+        if i in _hq_cache and _hq_cache[i][0] is False:
             continue
         if z3.is_quantifier(t):
             if not t.is_lambda():
@@ -202,7 +263,7 @@ def _has_quant(f):
             continue
         stack.extend(t.children())
     if len(_hq_cache) < 500000:
-        _hq_cache[fid] = res
+        _hq_cache[fid] = (res, f)
         if not res:
             pass
     return res
@@ -324,7 +385,8 @@ def discharge(vc, use_cvc5=True):
             plain.append(q)
     ground, quants = prepare(base)
     qh = plain + quants
-    inst = instantiate(ground, qh, z3.BoolVal(True))
+    inst = instantiate(ground, qh, z3.BoolVal(True), rounds=getattr(vc, 'rounds', None) or int(os.environ.get('PYVC_ROUNDS', '2')),
+                       max_inst=getattr(vc, 'max_inst', None))
     qbodies = any(_has_quant(q.body) for q in qh)
     qf = [f for f in ground if not _has_quant(f)] + ([f for f in inst if not _has_quant(f)] if qbodies else inst) + atom_facts()
     leftover = [f for f in ground if _has_quant(f)]
@@ -368,11 +430,18 @@ def discharge(vc, use_cvc5=True):
     if r == z3.sat and (qh or leftover):
         # the ground instances have a model; ask z3 about the quantified problem itself before reporting
         s3 = z3.Solver()
-        s3.set('timeout', 5000)
+        # generous wall-clock budget: on the unchanged tree these queries take < 3 s, and the verdict must not flip under load
+        s3.set('timeout', QUANT_TIMEOUT_MS)
+        if QUANT_RLIMIT:
+            s3.set('rlimit', QUANT_RLIMIT)
         s3.add(*(base + atom_facts() + inst))
         for q in vc.qhyps:
             s3.add(z3.ForAll(q.vars, q.body))
-        if s3.check() == z3.unsat:
+        r3 = s3.check()
+        if os.environ.get('PYVC_RLIMIT_TRACE'):
+            st = s3.statistics()
+            print('RLIMIT', vc.name, r3, [st.get_key_value(k) for k in st.keys() if k == 'rlimit count'], round(time.time() - t0, 2), flush=True)
+        if r3 == z3.unsat:
             return Result(vc, 'unsat', 'z3(quantified)', time.time() - t0)
     if r == z3.sat:
         return Result(vc, 'sat', backend, time.time() - t0, model, detail)
